@@ -15,7 +15,8 @@ class C40(vlib.Spec):
                 "C40_raft_sms_from_leader_completeness", "C40_raft_vote_restriction", "C40_raft_log_terms_monotone",
                 "C40_raft_lc_from_vote_invariant", "C40_raft_invariants_step", "C40_raft_invariants_reachable",
                 "C40_raft_leader_completeness", "C40_raft_commit_sound", "C40_raft_sms_all",
-                "C40_paxos_safety", "C40_paxos_recommit_obeys_pick"]
+                "C40_paxos_safety", "C40_paxos_recommit_obeys_pick", "C40_paxos_slot_reuse_refuted",
+                "C40_paxos_acceptor_refines"]
     crate, group, binary = "h_raft", "hydro", "h_raft"
     imports = "From HV Require Import Proto.RaftNet.\nFrom HV Require Proto.PaxosCheck."
     level = "proof"
@@ -27,11 +28,14 @@ class C40(vlib.Spec):
                    "the Hydro dataflow wiring around raft_step (raft_server: batching per tick, network demux) is not modelled; "
                    "the transition system lets a member consume any list of ever-sent messages per step",
                    "usize modelled as unbounded N; HashSet/HashMap compared after sorting",
-                   "Paxos: the safety theorem is about the ABSTRACT multi-Paxos transition system (Proto/PaxosModel.v); the tie "
-                   "to paxos.rs is component-level only: the real recommit_after_leader_election (new leader's p2a choice) and "
-                   "index_payloads (slot bookkeeping) are run through the embedded code generator (harness/h_paxos) and "
-                   "checked to be instances of the abstract rule; the full Hydro Paxos program (leader election timers, "
-                   "acceptors, networking, paxos_with_client.rs) is NOT run"]
+                   "Paxos: safety (C40_paxos_safety) is proved for an ABSTRACT multi-Paxos transition system; tie to paxos.rs: "
+                   "(a) the ACCEPTOR node and (b) the PROPOSER node of the whole paxos_core program are generated for their "
+                   "locations by the production embedded code generator (unnamed network channels numbered) and driven tick by "
+                   "tick with scripted message batches (bincode on the wire, paused tokio clock); the acceptor model is compared "
+                   "on every run and proved to refine the abstract system (C40_paxos_acceptor_refines); the proposer's "
+                   "sequencing model (recommit + index_payloads as wired) is compared on every run and does NOT refine it "
+                   "(two known findings); leader election timers/heartbeats, p1b quorum collection and checkpoints are not "
+                   "modelled; paxos_with_client.rs is not run"]
     rule = ("cluster cases: n in 3..5 members, decision-list schedules (election rounds, replication rounds, racing "
             "candidacies, partial FIFO/reordered/duplicated deliveries, crashes) executed with the REAL raft_step; "
             "step cases: arbitrary (partly ill-formed) states and message batches incl. panicking ones; "
@@ -50,10 +54,13 @@ class C40(vlib.Spec):
         "Every run additionally compares the real raft_step field by field with the model on generated calls and "
         "evaluates election safety / log matching / SMS on whole cluster runs executed with the real raft_step "
         "(this generator caught a seeded change that swapped the up-to-date comparison of the vote restriction). "
-        "REMAINING GAP (Paxos): abstract multi-Paxos safety (one value per slot) is proved (C40_paxos_safety), but the "
-        "tie to paxos.rs is component-level only (recommit_after_leader_election, index_payloads run through the "
-        "embedded code generator and checked against the abstract rule; C40_paxos_recommit_obeys_pick); the full Hydro "
-        "Paxos program is neither modelled nor run. Also not modelled: the Hydro dataflow wiring around raft_step.")
+        "Paxos: abstract multi-Paxos safety (one value per slot) is proved (C40_paxos_safety, generalised p1b reports); "
+        "the real ACCEPTOR node of paxos_core is driven with scripted batches, its model is proved to refine the abstract "
+        "system (C40_paxos_acceptor_refines); the real PROPOSER node is driven too and VIOLATES the property after a "
+        "leader change with non-empty logs (KNOWN FINDINGS px/slot-reuse-after-leader-change: two payloads proposed and "
+        "reported decided for one slot; px/quorum-counts-replies-not-acceptors; C40_paxos_slot_reuse_refuted). So for "
+        "Paxos the property is REFUTED on the shipped program, not proved. Not modelled: election timers, p1b quorum "
+        "collection, checkpoints; the Hydro dataflow wiring around raft_step.")
 
     def gen(self, rng, tier, n):
         cases = []
@@ -75,9 +82,9 @@ class C40(vlib.Spec):
 
     def px_bin(self):
         if not hasattr(self, "_px"):
-            ok, bindir, log = vlib.cargo_build("h_paxos", "hydro")
-            self._px = os.path.join(bindir, "h_paxos") if ok else None
-            if not ok:
+            from tools import codec
+            self._px, log = codec.cached_build("h_paxos", "hydro", "h_paxos")
+            if self._px is None:
                 self.ctx.log("h_paxos build failed:\n" + log[-2000:])
         return self._px
 
@@ -89,10 +96,15 @@ class C40(vlib.Spec):
             b = self.px_bin()
             if b is None:
                 return 1
-            r = vlib.run_harness(self.ctx, b, [case], name="px")[0]
+            r = vlib.run_harness(self.ctx, b, [proto.px_harness_case(case)], name="px")[0]
             self.px_results[vlib.case_hash(case)] = r
             return proto.px_term(case, r)
         return proto.raft_term(case, res)
+
+    def finding_key(self, case, res):
+        if case["k"].startswith("px_"):
+            return proto.px_finding_key(case, self.px_results.get(vlib.case_hash(case)))
+        return None
 
     def shrink(self, case):
         if case["k"].startswith("px_"):
@@ -104,6 +116,12 @@ class C40(vlib.Spec):
             return any(l["entries"] for l in case["logs"])
         if case["k"] == "px_index":
             return any(t["payloads"] for t in case["ticks"])
+        if case["k"] == "px_acc":
+            return any(t["p2a"] for t in case["ticks"]) and any(t["p1a"] for t in case["ticks"])
+        if case["k"] == "px_seq":
+            return any(case["ticks"])
+        if case["k"] == "px_prop":
+            return True
         if case["k"] == "cluster":
             st = proto.raft_stats(case, res)
             return bool(st["leaders"]) and st["commit"] > 0
